@@ -45,10 +45,9 @@ theorem readPiece_complete (hpl : 0 < pl) {t : State} (hg : Good crc pl blob t) 
   unfold readPiece at h
   split at h
   · cases h
-  · split at h
-    · cases h
-    · rename_i h1 h2
-      have hi : i < numPiecesOf pl blob.length := by rw [← hg.len_pieces]; omega
+  · rename_i h1
+    have hi : i < numPiecesOf pl blob.length := by rw [← hg.len_pieces]; omega
+    have goal : x = pieceOf pl blob i := by
       simp only [Int.toNat_natCast] at h
       cases hp : t.pieces[i]? with
       | none => rw [hp] at h; cases h
@@ -65,6 +64,7 @@ theorem readPiece_complete (hpl : 0 < pl) {t : State} (hg : Good crc pl blob t) 
             = List.take (pieceOf pl blob i).length (List.take pl (List.drop (pl * i) t.file)) := by
               rw [List.take_take]; congr 1; omega
           _ = pieceOf pl blob i := by rw [hb]; exact List.take_length
+    exact goal
 
 theorem sep_of_eq (i : Nat) (p : Bytes) (h : p = pieceOf pl blob i) : SepPayload crc pl blob (i : Int) p := by
   intro _ _ _; simp only [Int.toNat_natCast]; exact h
@@ -234,5 +234,148 @@ theorem init_ok (crc : Bytes → Nat) (pl : Nat) (blob : Bytes) (cfg : Cfg) (see
     split at hp
     · cases hp; exact agent_ok crc pl blob
     · cases hp
+
+
+/-- every swarm action rewrites a peer's torrent by at most one torrent action -/
+theorem peer_tor_step (crc : Bytes → Nat) (s : Swarm) (act : Swarm.Action) (a : Nat) (p p' : Peer)
+    (hp : s.peers[a]? = some p) (hp' : (Swarm.step crc s act).peers[a]? = some p') :
+    p'.tor = p.tor ∨ ∃ ta, p'.tor = AgentTorrent.step crc p.tor ta := by
+  cases act with
+  | connect x y =>
+    simp only [Swarm.step] at hp'
+    cases hx : s.peers[x]? with
+    | none => rw [hx] at hp'; simp only at hp'; rw [hp] at hp'; cases hp'; exact Or.inl rfl
+    | some px =>
+      cases hy : s.peers[y]? with
+      | none => rw [hx, hy] at hp'; simp only at hp'; rw [hp] at hp'; cases hp'; exact Or.inl rfl
+      | some py =>
+        rw [hx, hy] at hp'; simp only at hp'
+        split at hp'
+        · simp only [setPeer] at hp'
+          rw [List.getElem?_set] at hp'
+          split at hp'
+          · split at hp'
+            · cases hp'; rename_i h1 _; subst h1; rw [hy] at hp; cases hp; exact Or.inl rfl
+            · cases hp'
+          · rw [List.getElem?_set] at hp'
+            split at hp'
+            · split at hp'
+              · cases hp'; rename_i h1 _; subst h1; rw [hx] at hp; cases hp; exact Or.inl rfl
+              · cases hp'
+            · rw [hp] at hp'; cases hp'; exact Or.inl rfl
+        · rw [hp] at hp'; cases hp'; exact Or.inl rfl
+  | disconnect x y =>
+    simp only [Swarm.step] at hp'
+    cases hx : s.peers[x]? with
+    | none => rw [hx] at hp'; simp only at hp'; rw [hp] at hp'; cases hp'; exact Or.inl rfl
+    | some px =>
+      cases hy : s.peers[y]? with
+      | none => rw [hx, hy] at hp'; simp only at hp'; rw [hp] at hp'; cases hp'; exact Or.inl rfl
+      | some py =>
+        rw [hx, hy] at hp'; simp only at hp'
+        split at hp'
+        · simp only [setPeer] at hp'
+          rw [List.getElem?_set] at hp'
+          split at hp'
+          · split at hp'
+            · cases hp'; rename_i h1 _; subst h1; rw [hy] at hp; cases hp; exact Or.inl rfl
+            · cases hp'
+          · rw [List.getElem?_set] at hp'
+            split at hp'
+            · split at hp'
+              · cases hp'; rename_i h1 _; subst h1; rw [hx] at hp; cases hp; exact Or.inl rfl
+              · cases hp'
+            · rw [hp] at hp'; cases hp'; exact Or.inl rfl
+        · rw [hp] at hp'; cases hp'; exact Or.inl rfl
+  | leave x =>
+    simp only [Swarm.step] at hp'
+    cases hx : s.peers[x]? with
+    | none => rw [hx] at hp'; simp only at hp'; rw [hp] at hp'; cases hp'; exact Or.inl rfl
+    | some px =>
+      rw [hx] at hp'; simp only at hp'
+      rw [List.getElem?_set] at hp'
+      split at hp'
+      · split at hp'
+        · cases hp'; rename_i h1 _; subst h1; rw [hx] at hp; cases hp; exact Or.inl rfl
+        · cases hp'
+      · rw [List.getElem?_map, hp] at hp'; cases hp'; exact Or.inl rfl
+  | request x y j =>
+    simp only [Swarm.step] at hp'
+    cases hx : s.peers[x]? with
+    | none => rw [hx] at hp'; simp only at hp'; rw [hp] at hp'; cases hp'; exact Or.inl rfl
+    | some px =>
+      cases hy : s.peers[y]? with
+      | none => rw [hx, hy] at hp'; simp only at hp'; rw [hp] at hp'; cases hp'; exact Or.inl rfl
+      | some py =>
+        rw [hx, hy] at hp'; simp only at hp'
+        split at hp'
+        · simp only [setPeer] at hp'
+          rw [List.getElem?_set] at hp'
+          split at hp'
+          · split at hp'
+            · cases hp'; rename_i h1 _; subst h1; rw [hx] at hp; cases hp; exact Or.inl rfl
+            · cases hp'
+          · rw [hp] at hp'; cases hp'; exact Or.inl rfl
+        · rw [hp] at hp'; cases hp'; exact Or.inl rfl
+  | deliver x y j g =>
+    simp only [Swarm.step] at hp'
+    cases hx : s.peers[x]? with
+    | none => rw [hx] at hp'; simp only at hp'; rw [hp] at hp'; cases hp'; exact Or.inl rfl
+    | some px =>
+      cases hy : s.peers[y]? with
+      | none => rw [hx, hy] at hp'; simp only at hp'; rw [hp] at hp'; cases hp'; exact Or.inl rfl
+      | some py =>
+        rw [hx, hy] at hp'; simp only at hp'
+        split at hp'
+        · cases hw : wirePayload py j g with
+          | none =>
+            rw [hw] at hp'; simp only [setPeer] at hp'
+            rw [List.getElem?_set] at hp'
+            split at hp'
+            · split at hp'
+              · cases hp'; rename_i h1 _; subst h1; rw [hx] at hp; cases hp; exact Or.inl rfl
+              · cases hp'
+            · rw [hp] at hp'; cases hp'; exact Or.inl rfl
+          | some payload =>
+            rw [hw] at hp'; simp only [setPeer] at hp'
+            rw [List.getElem?_set] at hp'
+            split at hp'
+            · split at hp'
+              · cases hp'; rename_i h1 _; subst h1; rw [hx] at hp; cases hp
+                exact Or.inr ⟨.spawn (j : Int) payload, rfl⟩
+              · cases hp'
+            · rw [hp] at hp'; cases hp'; exact Or.inl rfl
+        · rw [hp] at hp'; cases hp'; exact Or.inl rfl
+  | tstep x tid k =>
+    simp only [Swarm.step] at hp'
+    cases hx : s.peers[x]? with
+    | none => rw [hx] at hp'; simp only at hp'; rw [hp] at hp'; cases hp'; exact Or.inl rfl
+    | some px =>
+      rw [hx] at hp'; simp only [setPeer] at hp'
+      rw [List.getElem?_set] at hp'
+      split at hp'
+      · split at hp'
+        · cases hp'; rename_i h1 _; subst h1; rw [hx] at hp; cases hp; exact Or.inr ⟨.step tid k, rfl⟩
+        · cases hp'
+      · rw [hp] at hp'; cases hp'; exact Or.inl rfl
+  | resolve x tid =>
+    simp only [Swarm.step] at hp'
+    cases hx : s.peers[x]? with
+    | none => rw [hx] at hp'; simp only at hp'; rw [hp] at hp'; cases hp'; exact Or.inl rfl
+    | some px =>
+      rw [hx] at hp'; simp only at hp'
+      cases hf : px.inflight.find? (·.tid = tid) with
+      | none => rw [hf] at hp'; simp only at hp'; rw [hp] at hp'; cases hp'; exact Or.inl rfl
+      | some d =>
+        cases hr : (px.tor.threads[tid]?).bind (·.result) with
+        | none => rw [hf, hr] at hp'; simp only at hp'; rw [hp] at hp'; cases hp'; exact Or.inl rfl
+        | some r =>
+          rw [hf, hr] at hp'; simp only at hp'
+          cases r <;> simp only [setPeer] at hp' <;> rw [List.getElem?_set] at hp' <;> split at hp' <;>
+            first
+            | (split at hp'
+               · cases hp'; rename_i h1 _; subst h1; rw [hx] at hp; cases hp; exact Or.inl rfl
+               · cases hp')
+            | (rw [hp] at hp'; cases hp'; exact Or.inl rfl)
 
 end KrakenModel.Proof.C19
